@@ -296,6 +296,8 @@ def _common_type_names(csource):
     is_typedef = False
     paren = 0
     previous_word = ''
+    # the file names in line directives are not C source
+    csource = _r_line_directive.sub('', csource)
     for word in _r_words.findall(csource):
         if word in look_for_words:
             if word == ';':
